@@ -27,6 +27,7 @@ import PycsepVerif.Drive.C15b
 import PycsepVerif.Drive.C18c
 import PycsepVerif.Drive.C03b
 import PycsepVerif.Drive.C17b
+import PycsepVerif.Drive.C14Text
 -- REGISTER-IMPORT (one `import PycsepVerif.Drive.Cxx` line per property, above this line)
 
 /-- the per-property handlers, tried in order; each returns `none` for ops it does not know -/
@@ -60,6 +61,7 @@ def handlers : List (List String → Option String) := [
   , Drive.C18c.handle
   , Drive.C03b.handle
   , Drive.C17b.handle
+  , Drive.C14Text.handle
   -- REGISTER-HANDLER (`, Drive.Cxx.handle` lines above this line)
 ]
 
